@@ -17,6 +17,8 @@ ug      = name~kind~m~matrix^…     kind ∈ oper fn0 fn1 fn2 other; `fn1` deno
 * `dmket N= ug= ops= state=<vector>`             → `ok matrix`                density-matrix mode, ket input (ket2dm)
 * `unitary N= ug= ops=`                          → `ok matrix`                compute_unitary
 * `props N= expand=0|1 ug= ops=`                 → `ok matrix#matrix…` | `ok -`
+* `propsm N= expand=0|1 ignore=0|1 ug= ops= meas=i,j,…|-` → as `props`, for the circuit with a measurement inserted
+                                                   in front of gate number i (i = number of gates: at the end) | `err measurement`
 * `prod N= ltr=0|1 ug= ops=`                     → `ok matrix` | `ok int1`    product of the expanded propagators
 * `compact N= ug= ops= ord=sorted|rev|tab:A>B>ans^… [entries=X.Y,X.Y…]`
                                                  → `ok inds|matrix` or `ok inds|vector` (the sampled entries)
@@ -50,7 +52,7 @@ def errName : Err → String
   | .embed .index => "embed-index" | .embed .permute => "embed-permute"
   | .index => "index" | .einsum => "einsum" | .empty => "empty"
   | .userControls => "userControls" | .userParams => "userParams" | .userNeither => "userNeither"
-  | .unknownGate => "unknownGate" | .fuel => "fuel"
+  | .unknownGate => "unknownGate" | .fuel => "fuel" | .measurement => "measurement"
 
 structure UDef where
   name : String
@@ -95,39 +97,32 @@ def opReqs? (s : String) : Option (List OpReq) :=
 
 def dmatRows (d : DMat) : List (List S) := d.m.map (·.map fun c => CycD.norm d.e c)
 
-/-- resolution of a gate to a matrix step: the name test for GLOBALPHASE comes first in the code, then
-`_get_gate_unitary` (user table before the library) -/
-def resolve (ug : List UDef) (r : OpReq) : Except Err (Op S) :=
-  if r.g.name = .GLOBALPHASE then
-    if r.g.arg.isFixed then .ok (.phase ⟨0, Cyc.zpow r.g.arg.p8⟩) else .error .unknownGate
-  else
-    -- `get_all_qubits`: controls + targets, or targets when `controls is None`
-    let qs := if r.cn then r.g.targets else r.g.controls ++ r.g.targets
-    match getGateUnitary (ug.map fun u => (u.name, u.kind)) r.g.name.toString r.cn with
-    | .error e => .error e
-    | .ok .library =>
-      if !r.g.arg.isFixed then .error .unknownGate else
-      match gateE r.g.name r.g.arg.p8 with
-      | some (m, d) => .ok (.gate qs m (dmatRows d))
-      | none => .error .unknownGate
-    | .ok (.userOper n) | .ok (.userCall0 n) =>
-      match ug.find? (·.name == n) with
-      | some u => .ok (.gate qs u.m u.mat)
-      | none => .error .unknownGate
-    | .ok (.userCall1 n) =>
-      match ug.find? (·.name == n) with
-      | some u =>
-        let a : S := ⟨0, Cyc.ofInt (r.arg.getD 0)⟩
-        .ok (.gate qs u.m (u.mat.map (·.map (CycD.mul a))))
-      | none => .error .unknownGate
+/-- the library as the driver knows it: exact matrices `gateE` at fixed angles (multiples of π/8) -/
+def libE : Library OpReq S where
+  compact := fun _ q =>
+    if !q.g.arg.isFixed then none else
+    match gateE q.g.name q.g.arg.p8 with
+    | some (m, d) => some (m, dmatRows d)
+    | none => none
+  phase := fun q => ⟨0, Cyc.zpow q.g.arg.p8⟩
 
-def resolveAll (ug : List UDef) : List OpReq → Except Err (List (Op S))
-  | [] => .ok []
-  | r :: rs =>
-    match resolve ug r, resolveAll ug rs with
-    | .ok a, .ok b => .ok (a :: b)
-    | .error e, _ => .error e
-    | _, .error e => .error e
+/-- the user table: `oper` / `fn0` yield the matrix, `fn1` denotes `lambda a: a * matrix` (integer `a`) -/
+def userGateOf (u : UDef) : UserGate OpReq S where
+  name := u.name
+  kind := u.kind
+  m := u.m
+  yield := fun
+    | none => u.mat
+    | some q => u.mat.map (·.map (CycD.mul ⟨0, Cyc.ofInt (q.arg.getD 0)⟩))
+
+def reqOf (r : OpReq) : GateReq OpReq :=
+  ⟨r.g.name.toString, r.g.targets, r.g.controls, r.cn, r⟩
+
+/-- resolution of the gate objects to matrix steps: the model's `resolveAll` (Model/SimKet.lean (f));
+a GLOBALPHASE with a symbolic angle cannot be represented exactly and is refused here -/
+def resolveAllD (ug : List UDef) (rs : List OpReq) : Except Err (List (Op S)) :=
+  if rs.any (fun r => r.g.name = .GLOBALPHASE && !r.g.arg.isFixed) then .error .unknownGate
+  else resolveAll libE (ug.map userGateOf) (rs.map reqOf)
 
 def chunks (n : Nat) (l : List S) : List (List S) :=
   (List.range (l.length / n)).map fun i => (l.drop (i * n)).take n
@@ -155,7 +150,7 @@ def ordOf (s : String) : Option (List Nat → List Nat → List Nat) :=
 def withOps (fs : List String) (k : Nat → List (Op S) → String) : String :=
   match fNat? fs "N", (fStr? fs "ug").bind udefs?, (fStr? fs "ops").bind opReqs? with
   | some N, some ug, some rs =>
-    match resolveAll ug rs with
+    match resolveAllD ug rs with
     | .ok ops => k N ops
     | .error e => "err " ++ errName e
   | _, _, _ => "bad-op"
@@ -215,6 +210,17 @@ def step (line : String) : String :=
     withOps fs fun N ops =>
       answer (propagators O N (fNat? fs "expand" == some 1) ops) fun l =>
         if l.isEmpty then "-" else "#".intercalate (l.map fun m => showMat m.rows)
+  | some "propsm" =>
+    -- measurements inserted before the gates at the positions `meas` (position = number of gates in front)
+    withOps fs fun N ops =>
+      match (fStr? fs "meas").bind (fun s => if s == "-" then some [] else natList? s) with
+      | some ms =>
+        let items : List (Item S) :=
+          ((List.range (ops.length + 1)).map fun i =>
+            List.replicate (ms.count i) Item.meas ++ (match ops[i]? with | some o => [Item.op o] | none => [])).flatten
+        answer (propagatorsM O N (fNat? fs "expand" == some 1) (fNat? fs "ignore" == some 1) items) fun l =>
+          if l.isEmpty then "-" else "#".intercalate (l.map fun m => showMat m.rows)
+      | none => "bad-op"
   | some "prod" =>
     withOps fs fun N ops =>
       answer (propagators O N true ops) fun l =>
